@@ -2,6 +2,7 @@ package main
 
 import (
 	"fmt"
+	"strings"
 	"time"
 
 	"github.com/atlassian/gostatsd"
@@ -23,7 +24,15 @@ func genAgg(r *hlib.Rand) input {
 	for i := range in.Exp {
 		in.Exp[i] = hlib.Pick(r, []int64{0, 0, 1, 60, 250, 1000})
 	}
+	in.HistLimit = hlib.Pick(r, []int{0, 0, 2, 10})
 	u := mmgen.NewUniverse(r, r.Range(1, 4), r.Range(1, 3), r.Range(0, 1))
+	// latency-histogram timers: their own branches in Flush and Reset
+	if r.Chance(3, 4) {
+		u.Tags = append(u.Tags, hlib.Pick(r, histogramTags))
+		if r.Bool() {
+			u.Tags = append(u.Tags, hlib.Pick(r, histogramTags))
+		}
+	}
 	now := int64(1000)
 	n := r.Range(4, 16)
 	for i := 0; i < n; i++ {
@@ -50,8 +59,15 @@ func genAgg(r *hlib.Rand) input {
 
 func runAgg(in input) hlib.Case {
 	c := hlib.Case{Input: in, Class: "agg"}
+	for _, o := range in.Ops {
+		for _, d := range o.Dps {
+			if d.Type == int(gostatsd.TIMER) && strings.Contains(strings.Join(d.Tags, ","), "gsd_histogram:") {
+				c.Class = "agg/hist"
+			}
+		}
+	}
 	exp := func(i int) time.Duration { return time.Duration(in.Exp[i]) }
-	agg := statsd.NewMetricAggregator([]float64{90}, exp(0), exp(2), exp(3), exp(1), gostatsd.TimerSubtypes{}, 0)
+	agg := statsd.NewMetricAggregator([]float64{90}, exp(0), exp(2), exp(3), exp(1), gostatsd.TimerSubtypes{}, uint32(in.HistLimit))
 	cur := int64(0)
 	agg.VerifC01SetNow(func() time.Time { return time.Unix(0, cur) })
 	dump := func() (s string) {
